@@ -478,6 +478,22 @@ theorem varLoop_fw {cfg : Cfg} {sql : Sql} (hW : WF sql) :
           obtain ⟨f1, _⟩ := advanceAlnum_fw hW h1
           exact f1.trans (ih _ _ f1.le h2)
 
+theorem valueLoop_fw {cfg : Cfg} {sql : Sql} (hW : WF sql) :
+    ∀ (f : Nat) (st st' : St), st.current ≤ sql.size → valueLoop cfg sql f st = .ok st' → Fw sql st st' := by
+  intro f
+  induction f with
+  | zero => intro st st' _ h; simp only [valueLoop] at h; cases h
+  | succ f ih =>
+    intro st st' hle h
+    simp only [valueLoop] at h
+    split at h
+    · cases h; exact Fw.refl hle
+    · split at h
+      · obtain ⟨s, h1, h2⟩ := bind_ok h
+        obtain ⟨f1, _⟩ := advanceAlnum_fw hW h1
+        exact f1.trans (ih _ _ f1.le h2)
+      · cases h; exact Fw.refl hle
+
 theorem lineCommentLoop_fw {sql : Sql} (hW : WF sql) :
     ∀ (f : Nat) (st st' : St), st.current ≤ sql.size → lineCommentLoop sql f st = .ok st' → Fw sql st st' := by
   intro f
@@ -654,16 +670,34 @@ theorem numLoop_full {cfg : Cfg} {sql : Sql} :
                 · exact numIdentTail_full hS h
                 · exact finishNumber_full hS h
 
-theorem scanNumber_full {cfg : Cfg} {sql : Sql} {st st' : St}
+theorem radixAdd_full {cfg : Cfg} {sql : Sql} {st st' : St} {base : Nat} {ty : String}
+    (hS : SInv sql st) (h : radixAdd cfg sql st base ty = .ok st') : CInv sql st' ∧ st.start < st'.current := by
+  unfold radixAdd at h
+  split at h
+  · cases h
+  · exact add_full hS h
+  · exact add_full hS h
+
+theorem scanRadix_full {cfg : Cfg} {sql : Sql} (hW : WF sql) {st st' : St} {base : Nat} {ty : String}
+    (hS : SInv sql st) (h : scanRadix cfg sql st base ty = .ok st') : CInv sql st' ∧ st.start < st'.current := by
+  unfold scanRadix at h
+  obtain ⟨s, h1, h2⟩ := bind_ok h
+  obtain ⟨s2, h3, h4⟩ := bind_ok h2
+  obtain ⟨f1, _, _⟩ := advance_fw h1
+  have f12 := f1.trans (valueLoop_fw hW _ _ _ f1.le h3)
+  have := radixAdd_full (hS.fw f12) h4
+  exact ⟨this.1, by rw [← f12.start_eq]; exact this.2⟩
+
+theorem scanNumber_full {cfg : Cfg} {sql : Sql} (hW : WF sql) {st st' : St}
     (hS : SInv sql st) (h : scanNumber cfg sql st = .ok st') : CInv sql st' ∧ st.start < st'.current := by
   unfold scanNumber at h
   split at h
   · split at h
-    · cases h
+    · exact scanRadix_full hW hS h
     · exact add_full hS h
   · split at h
     · split at h
-      · cases h
+      · exact scanRadix_full hW hS h
       · exact add_full hS h
     · exact numLoop_full _ _ _ _ _ _ hS h
 
@@ -686,6 +720,16 @@ theorem scanIdentifier_full {cfg : Cfg} {sql : Sql} (hW : WF sql) {st st' : St} 
   have := add_full (hS.fw f12) h4
   exact ⟨this.1, by rw [← f12.start_eq]; exact this.2⟩
 
+theorem stringAdd_full {cfg : Cfg} {sql : Sql} {st st' : St} {ty : String} {text : List Char}
+    (hS : SInv sql st) (h : stringAdd cfg sql st ty text = .ok st') : CInv sql st' ∧ st.start < st'.current := by
+  unfold stringAdd at h
+  split at h
+  · split at h
+    · cases h
+    · exact add_full hS h
+    · cases h
+  · exact add_full hS h
+
 theorem stringBody_full {cfg : Cfg} {sql : Sql} (hW : WF sql) {st st' : St} {w : List Char} {e ty : String}
     (hS : SInv sql st) (h : stringBody cfg sql st w e ty = .ok st') : CInv sql st' ∧ st.start < st'.current := by
   unfold stringBody at h
@@ -696,10 +740,8 @@ theorem stringBody_full {cfg : Cfg} {sql : Sql} (hW : WF sql) {st st' : St} {w :
     obtain ⟨r, h3, h4⟩ := bind_ok h2
     have f2 := extractString_fw hW (by omega) f1.le h3
     have f12 := f1.trans f2
-    split at h4
-    · cases h4
-    · have := add_full (hS.fw f12) h4
-      exact ⟨this.1, by rw [← f12.start_eq]; exact this.2⟩
+    have := stringAdd_full (hS.fw f12) h4
+    exact ⟨this.1, by rw [← f12.start_eq]; exact this.2⟩
 
 theorem scanString_full {cfg : Cfg} {sql : Sql} (hW : WF sql) {st st' : St} {w : List Char} {res : Res St}
     (hS : SInv sql st) (h : scanString cfg sql st w = some res) (hr : res = .ok st') :
@@ -864,7 +906,7 @@ theorem dispatch_full {cfg : Cfg} {sql : Sql} (hW : WF sql) {s st' : St} {ch : C
         subst this
         exact Or.inl (by simp only [isSpaceAt, hget]; exact hsp)
   · split at h
-    · exact scanNumber_full hS h
+    · exact scanNumber_full hW hS h
     · split at h
       · exact scanIdentifier_full hW hS h
       · exact scanKeywords_full hW hS h
